@@ -492,9 +492,18 @@ cases = {{"t+oo": lambda: t + sp.oo, "t-oo": lambda: t - sp.oo, "Add(t,nan)": la
          "Min(oo,l)": lambda: sp.Min(sp.oo, l, evaluate=False),
          "t+Quantity(0 m)": lambda: t + Quantity(0 * units.meter), "Quantity(0 m)+t": lambda: Quantity(0 * units.meter, display_symbol="a_zero") + t}}
 name = {name!r}; want = {want!r}
+def value_at(expr_):
+    from sympy.physics.units import Quantity as SymQ
+    v = sp.sympify(expr_); v = v.xreplace({{q_: q_.scale_factor for q_ in v.atoms(SymQ)}})
+    return v.subs({{t: 3, l: 5}})
 try:
-    e, d = collect_expression_and_dimension(cases[name]()); ok = dimsys_SI.equivalent_dims(d, getattr(units, want))
+    src = cases[name]()
+    e, d = collect_expression_and_dimension(src); ok = dimsys_SI.equivalent_dims(d, getattr(units, want))
     print(name, "->", e, d)
+    vin, vout = value_at(src), value_at(e)
+    same = (vin == vout) or (vin is sp.nan and vout is sp.nan) or (vin.is_finite and vout.is_finite and abs(sp.N(vin - vout)) < 1e-12)
+    print("value of the input", vin, " value of the returned expression", vout)
+    ok = ok and same
 except Exception as ex:
     ok = False; print(name, "raised", type(ex).__name__, ex)
 if not ok:
@@ -555,11 +564,22 @@ def concrete_specials(ctx):
         ctx.violation("C06:wrappers:look-alike operands share one instance", "; ".join(wb)[:600], REPLAY_WRAPPERS)
     else:
         ctx.ob("wrappers keep the dimension inferred from their own operand (look-alike operands, wrap flags)", "discharged", nontrivial=False)
+    def value_at(expr_):
+        from sympy.physics.units import Quantity as SymQ
+        v = sp.sympify(expr_)
+        v = v.xreplace({q_: q_.scale_factor for q_ in v.atoms(SymQ)})
+        return v.subs({t: 3, l: 5})
     for name, (mk, want) in cases.items():
         try:
-            e, d = collect_expression_and_dimension(mk())
+            src = mk()
+            e, d = collect_expression_and_dimension(src)
             ok = dimsys_SI.equivalent_dims(d, getattr(units, want))
             why = f"dimension {d}"
+            vin, vout = value_at(src), value_at(e)
+            same = (vin == vout) or (vin is sp.nan and vout is sp.nan) or (vin.is_finite and vout.is_finite and abs(sp.N(vin - vout)) < 1e-12)
+            if ok and not same:
+                ok = False
+                why = f"returned expression {e} has the value {vout} at t = 3, l = 5; the input has {vin}"
         except Exception as ex:
             ok = False
             why = f"raised {type(ex).__name__}: {ex}"
